@@ -180,7 +180,7 @@ class Contract:
                  closure=None, self_type=None, modifies=(), effects=None, coerce=None,
                  export_lemmas=True, is_property=False, locals=None, frame_check=True, static=False,
                  returns_expr=None, ghost_returns=None, value_self=False, binds=None,
-                 is_classmethod=False, inline_result=False):
+                 is_classmethod=False, inline_result=False, unreachable=()):
         self.qualname = qualname
         self.params = params                      # dict name -> T (in signature order)
         self.returns = returns
@@ -213,6 +213,7 @@ class Contract:
         self.locals = locals or {}          # local variable -> T (element shape of lists that start empty)
         self.frame_check = frame_check
         self.static = static                # @staticmethod: no receiver
+        self.unreachable = list(unreachable)   # anchors of return statements proved unreachable under the requires (obligation, not canary)
         self.inline_result = inline_result  # call sites use the `result == <expr>` clause as the value itself (pure scalar getters)
         self.returns_expr = returns_expr    # the result is this existing object (alias), e.g. 'self._categories'
         self.value_self = value_self        # `self` is a record by value that the method updates (constructor / setter)
